@@ -206,11 +206,29 @@ package codegen
 //@   trusted
 //@   ensures result1 >= 0
 //
-// user action methods (on_<rule>...) may queue a lookahead through recoverLookahead and
-// touch the user's own fields; they leave the parse stack and the lexer alone.
+// _cast converts a stack symbol to the parameter type; it never panics and yields the
+// zero value when the dynamic type differs.
+//@ func _cast
+//@   pure
+//@   ensures typeis(v, T) ==> result == unbox(v, T)
+//
+// user action methods (on_<rule>...): the k-th argument must be the symbol k places
+// above the bottom of the production's stack segment, converted by _cast (production
+// order, C03/C06). Actions may queue a lookahead through recoverLookahead and touch
+// the user's own fields; they leave the parse stack and the lexer alone.
 //@ func @.on_*
 //@   trusted
-//@   requires true
+//@   requires nargs <= len(recv._stack) - 1
+//@   requires arg0 == castas(recv._stack[len(recv._stack) - nargs + 0].Sym, arg0)
+//@   requires arg1 == castas(recv._stack[len(recv._stack) - nargs + 1].Sym, arg1)
+//@   requires arg2 == castas(recv._stack[len(recv._stack) - nargs + 2].Sym, arg2)
+//@   requires arg3 == castas(recv._stack[len(recv._stack) - nargs + 3].Sym, arg3)
+//@   requires arg4 == castas(recv._stack[len(recv._stack) - nargs + 4].Sym, arg4)
+//@   requires arg5 == castas(recv._stack[len(recv._stack) - nargs + 5].Sym, arg5)
+//@   requires arg6 == castas(recv._stack[len(recv._stack) - nargs + 6].Sym, arg6)
+//@   requires arg7 == castas(recv._stack[len(recv._stack) - nargs + 7].Sym, arg7)
+//@   ensures recv._stack == old(recv._stack) && recv._lex == old(recv._lex)
+//@   modifies *recv
 //
 //@ func @._makeError
 //@   requires !isnil(p) && typeis(p._lasym, Token) && wfTables() && len(p._stack) >= 1 && validState(p._stack[len(p._stack) - 1].State)
@@ -251,15 +269,14 @@ package codegen
 //@   loop 3 invariant p == old(p) && !isnil(p._lex) && p._lex == old(p._lex) && lrStack(save) && save[0].State == 0 && (p._qla == -1 || laOK(p._qla, p._qlasym)) && laOK(p._la, p._lasym) && unchangedOld(elems(_item)) && unchangedOld(elems(int32)) && unchangedOld(fields(fxParser), *p)
 //@   loop 3 invariant base(p._stack) == base(save) && off(p._stack) == off(save) && 1 <= len(p._stack) && len(p._stack) <= len(save) && cap(p._stack) == cap(save) && validState(state) && (forall k int :: {p._stack[k]} 0 <= k && k < len(p._stack) ==> p._stack[k] == save[k])
 //
-// _act dispatches to the user's action methods. Its contract is assumed for the driver
-// proof: it needs the production's terms on the stack and leaves stack and lexer alone
-// (actions may queue a lookahead through recoverLookahead).
+// _act dispatches to the user's action methods (per-instance obligations: the table of
+// term counts is assumed to hold its literal contents; the frames of the runtime show
+// nothing writes it).
 //@ func @._act
-//@   trusted
+//@   skip frame
+//@   tables _termCounts
 //@   requires !isnil(p) && validProd(prod) && _termCounts[prod] < len(p._stack)
 //@   ensures p._stack == old(p._stack) && p._lex == old(p._lex)
-//@   ensures laOK(p._la, p._lasym) && (p._qla == -1 || laOK(p._qla, p._qlasym))
-//@   modifies *p
 //
 //@ func @.parse
 //@   requires !isnil(p) && !isnil(lex) && wfTables() && len(p._stack) == 0
